@@ -110,3 +110,17 @@ Example C12_nonvacuous :
   map (map f_ptr) (plan_files c12_cfg [c12_file 1; c12_file 2; c12_file 3; c12_file 4; c12_file 5])
     = [[1; 2]].
 Proof. vm_compute. auto. Qed.
+
+(* ---- kernel ties (DESIGN.md 10.7).  The Go functions the theorems above are about are translated
+   from the current source on every run (Generated/Kernels.v); each tie states that the translated
+   function equals the model definition used above, on the whole range of the Go types
+   (Generated/KernelTie.v; `True` for a kernel the translator reports as not translated). ---- *)
+From BS Require Import Generated.KernelTie Proofs.KTie_on_disk_size Proofs.KTie_within.
+
+Theorem C12_kernel_tie_on_disk_size : tie_on_disk_size.
+Proof. exact k_on_disk_size_tie. Qed.
+Print Assumptions C12_kernel_tie_on_disk_size.
+
+Theorem C12_kernel_tie_within : tie_within.
+Proof. exact k_within_tie. Qed.
+Print Assumptions C12_kernel_tie_within.
